@@ -493,7 +493,11 @@ func C13(tier string) int {
 	}
 	for _, n := range []int{63, 64, 65, 255, 256, 257, 4096, 32768 - 1} {
 		v := strings.Repeat("v", n)
-		rt("string-size", fmt.Sprint(n), func(b *boltz.TypedBucket) { b.SetString("f", v, nil); b.SetStringList("l", []string{v, "a"}, nil); b.PutMap("m", map[string]interface{}{"k": v}, nil, true) }, func(b *boltz.TypedBucket) string {
+		rt("string-size", fmt.Sprint(n), func(b *boltz.TypedBucket) {
+			b.SetString("f", v, nil)
+			b.SetStringList("l", []string{v, "a"}, nil)
+			b.PutMap("m", map[string]interface{}{"k": v}, nil, true)
+		}, func(b *boltz.TypedBucket) string {
 			if g := b.GetString("f"); g == nil || *g != v {
 				return fmt.Sprintf("string of %d bytes not read back", n)
 			}
@@ -580,12 +584,28 @@ func C13(tier string) int {
 	}
 	str := "v"
 	scalars := []sc{
-		{"string", func(b *boltz.TypedBucket) { b.SetString("f", "v", nil) }, func(b *boltz.TypedBucket) string { return fmt.Sprintf("%v|%v|%v|%v", derefS(b.GetString("f")), b.GetInt64("f") == nil, b.GetBool("f") == nil, b.GetTime("f") == nil) }},
-		{"null", func(b *boltz.TypedBucket) { b.SetStringP("f", nil, nil) }, func(b *boltz.TypedBucket) string { return fmt.Sprintf("%v|%v|%v|%v", b.GetString("f") == nil, b.GetInt64("f") == nil, b.GetBool("f") == nil, b.GetTime("f") == nil) }},
-		{"int64", func(b *boltz.TypedBucket) { b.SetInt64("f", 7, nil) }, func(b *boltz.TypedBucket) string { g := b.GetInt64("f"); return fmt.Sprintf("%v|%v", g != nil && *g == 7, b.GetString("f") == nil) }},
-		{"bool", func(b *boltz.TypedBucket) { b.SetBool("f", true, nil) }, func(b *boltz.TypedBucket) string { g := b.GetBool("f"); return fmt.Sprintf("%v|%v", g != nil && *g, b.GetInt64("f") == nil) }},
-		{"time", func(b *boltz.TypedBucket) { b.SetTime("f", tv, nil) }, func(b *boltz.TypedBucket) string { g := b.GetTime("f"); return fmt.Sprintf("%v|%v", g != nil && g.Equal(tv), b.GetString("f") == nil) }},
-		{"float64", func(b *boltz.TypedBucket) { b.SetFloat64("f", 2.5, nil) }, func(b *boltz.TypedBucket) string { g := b.GetFloat64("f"); return fmt.Sprintf("%v|%v", g != nil && *g == 2.5, b.GetBool("f") == nil) }},
+		{"string", func(b *boltz.TypedBucket) { b.SetString("f", "v", nil) }, func(b *boltz.TypedBucket) string {
+			return fmt.Sprintf("%v|%v|%v|%v", derefS(b.GetString("f")), b.GetInt64("f") == nil, b.GetBool("f") == nil, b.GetTime("f") == nil)
+		}},
+		{"null", func(b *boltz.TypedBucket) { b.SetStringP("f", nil, nil) }, func(b *boltz.TypedBucket) string {
+			return fmt.Sprintf("%v|%v|%v|%v", b.GetString("f") == nil, b.GetInt64("f") == nil, b.GetBool("f") == nil, b.GetTime("f") == nil)
+		}},
+		{"int64", func(b *boltz.TypedBucket) { b.SetInt64("f", 7, nil) }, func(b *boltz.TypedBucket) string {
+			g := b.GetInt64("f")
+			return fmt.Sprintf("%v|%v", g != nil && *g == 7, b.GetString("f") == nil)
+		}},
+		{"bool", func(b *boltz.TypedBucket) { b.SetBool("f", true, nil) }, func(b *boltz.TypedBucket) string {
+			g := b.GetBool("f")
+			return fmt.Sprintf("%v|%v", g != nil && *g, b.GetInt64("f") == nil)
+		}},
+		{"time", func(b *boltz.TypedBucket) { b.SetTime("f", tv, nil) }, func(b *boltz.TypedBucket) string {
+			g := b.GetTime("f")
+			return fmt.Sprintf("%v|%v", g != nil && g.Equal(tv), b.GetString("f") == nil)
+		}},
+		{"float64", func(b *boltz.TypedBucket) { b.SetFloat64("f", 2.5, nil) }, func(b *boltz.TypedBucket) string {
+			g := b.GetFloat64("f")
+			return fmt.Sprintf("%v|%v", g != nil && *g == 2.5, b.GetBool("f") == nil)
+		}},
 	}
 	_ = str
 	alone := map[string]string{}
